@@ -658,7 +658,7 @@ Section Remove.
 
   Lemma pre_root_spec : forall h (n : node), root_ok L I h n -> asc (elements n) ->
     exists h0, kids_ok L I h0 (pre_root n) /\ n_vals (pre_root n) <= max_vals L I (pre_root n) /\
-               strong (pre_root n) /\ elements (pre_root n) = elements n.
+               strong (pre_root n) /\ elements (pre_root n) = elements n /\ h0 <= h.
   Proof.
     intros h n (Hk & Hmax & Hmin) Hasc. unfold pre_root.
     destruct (negb (is_leaf n) && (n_vals n =? 1) && negb (can_remove_from L I (child n 0))
@@ -676,10 +676,10 @@ Section Remove.
       rewrite Em. cbn [children]. rewrite (B7 nth_aerase_lt) by lia. rewrite nth_aset_eq by lia.
       exists h. split; [apply (B7 wfn_kids_ok); assumption|].
       split; [apply (wfn_bounds h); assumption|].
-      split; [eapply strong_of_min; eauto|].
+      split; [eapply strong_of_min; eauto|]. split; [|lia].
       rewrite Eem. rewrite (B7 elements_split2 vs cs 0) by lia.
       rewrite (B3 pre_0), (B3 post_end) by lia. rewrite app_nil_r. reflexivity.
-    - exists h. split; [assumption|]. split; [assumption|]. split; [|reflexivity].
+    - exists h. split; [assumption|]. split; [assumption|]. split; [|split; [reflexivity|lia]].
       destruct n as [vs|vs cs]; cbn [strong]; auto.
       specialize (Hmin eq_refl). unfold n_vals, child in *. cbn [vals children is_leaf negb andb] in *.
       destruct (Nat.eq_dec (length vs) 1) as [E1|E1]; [right|left; lia]. split; [assumption|].
@@ -697,10 +697,11 @@ Section Remove.
        | AKeep => IAt (rr_frames r)
        | AIncr => snd (iter_increment (rr_node r) (IAt (rr_frames r)))
        end, rr_log r) /\
-      elements n0 = elements (root t) /\ rd_post h0 n0 e r /\ root_ok L I h0 (rr_node r).
+      elements n0 = elements (root t) /\ rd_post h0 n0 e r /\ root_ok L I h0 (rr_node r) /\
+      h0 <= height (root t).
   Proof.
     intros t e ([h Hr] & Hasc & Hsize).
-    destruct (pre_root_spec h (root t) Hr Hasc) as (h0 & Hk0 & Hmax0 & Hs0 & Eel0).
+    destruct (pre_root_spec h (root t) Hr Hasc) as (h0 & Hk0 & Hmax0 & Hs0 & Eel0 & Hle0).
     rewrite remove_unfold. cbv zeta. rewrite (B7 kids_ok_height h0 _ Hk0).
     exists (remove_down rank dflt L I h0 (pre_root (root t)) e), h0, (pre_root (root t)).
     split; [reflexivity|]. split; [assumption|].
@@ -708,7 +709,8 @@ Section Remove.
     pose proof (remove_down_spec h0 _ e Hk0 Hasc Hs0) as Hpost. split; [assumption|].
     destruct Hpost as (Hk & Hnv & Hleaf & _).
     destruct (same_kind h0 _ _ Hk Hk0) as (_ & Emax & _).
-    split; [assumption|]. split; [lia|assumption].
+    split; [split; [assumption|split; [lia|assumption]]|].
+    pose proof Hr as (Hkr & _). rewrite (B7 kids_ok_height h _ Hkr). exact Hle0.
   Qed.
 
   (* ---------------------------------------------------------------- the sorted-list spec on l1 ++ x :: l2 *)
@@ -779,7 +781,7 @@ Section Remove.
     (st, out, elements (root t')) = set_remove rank (elements (root t)) (rank e) /\
     (forall x, In x lg -> In x (elements (root t))).
   Proof.
-    intros t e HInv. destruct (remove_top t e HInv) as (r & h0 & n0 & Erm & Eel0 & Hpost & Hroot).
+    intros t e HInv. destruct (remove_top t e HInv) as (r & h0 & n0 & Erm & Eel0 & Hpost & Hroot & Hht).
     destruct HInv as (_ & Hasc & Hsize).
     rewrite Erm. cbv beta iota. destruct Hpost as (_ & _ & _ & Hlog & Hcase). rewrite Eel0 in *.
     split; [|split; [|exact Hlog]].
@@ -802,7 +804,7 @@ Section Remove.
       (let k := length (filter (fun x => (rank x <? rank e)%Z) (elements (root t'))) in
        if k <? length (elements (root t')) then Some k else None).
   Proof.
-    intros t e HInv. destruct (remove_top t e HInv) as (r & h0 & n0 & Erm & Eel0 & Hpost & Hroot).
+    intros t e HInv. destruct (remove_top t e HInv) as (r & h0 & n0 & Erm & Eel0 & Hpost & Hroot & Hht).
     destruct HInv as (_ & Hasc & Hsize).
     rewrite Erm. cbv beta iota zeta. cbn [root]. destruct Hpost as (_ & _ & _ & _ & Hcase). rewrite Eel0 in *.
     intros Est.
@@ -825,5 +827,14 @@ Section Remove.
         destruct (B7 get_pos _ _ Hsh Hvq) as [Hlt _]. rewrite Ec' in Hlt.
         replace (length l1 <? length (l1 ++ l2)) with true by (symmetry; apply Nat.ltb_lt; lia).
         f_equal. lia.
+  Qed.
+
+  (* removal never makes the tree higher *)
+  Theorem remove_height : forall t e, Inv rank L I t ->
+    height (root (snd (fst (fst (remove rank dflt L I t e))))) <= height (root t).
+  Proof.
+    intros t e HInv. destruct (remove_top t e HInv) as (r & h0 & n0 & Erm & Eel0 & Hpost & Hroot & Hht).
+    rewrite Erm. cbn [fst snd root]. destruct Hroot as (Hk & _).
+    rewrite (B7 kids_ok_height h0 _ Hk). exact Hht.
   Qed.
 End Remove.
